@@ -823,6 +823,8 @@ def edge_class(F, G, caller, callee, bi):
             projected = True
             break
         roots = B.pointer_root(a)
+        # a reference to a by-value parameter (`|child| f(&child)`) is rooted in that parameter
+        roots = {("param", r[1]) if r[0] == "local" and isinstance(r[1], int) and B.is_arg(r[1]) else r for r in roots} if roots else roots
         from_params = bool(roots) and all(r[0] == "param" for r in roots)
         if b["kind"] == "closure" and roots and all(r == ("param", 1) for r in roots):
             verdicts.append("unknown")   # captured environment
